@@ -343,6 +343,31 @@ func (e *c10env) ops() []c10op {
 			n.normal = []string{id}
 			return n, ent, false
 		}},
+		{"WithWriter(nil)+SetWriter", func(e *c10env, t *mnode) (*mnode, *slog.Entry, bool) {
+			// a With call is a With call whatever its argument: a new child of the receiver, which gets its writers
+			// right afterwards (nothing is ever logged through the nil writer)
+			w, id := pickW()
+			var ent *slog.Entry
+			if r.Bool() {
+				ent = t.e.WithWriter(nil)
+			} else {
+				ent = t.e.WithErrorWriter(nil)
+			}
+			if ent == t.e {
+				e.skipClash = "WithWriter(nil) / WithErrorWriter(nil) returned the receiver itself instead of a new child"
+				return nil, ent, false
+			}
+			ent.SetWriter(w).SetErrorWriter(w)
+			n := e.withChild(t, ent)
+			n.normal, n.errs = []string{id}, []string{id}
+			return n, ent, false
+		}},
+		{"SetDefault(this logger)", func(e *c10env, t *mnode) (*mnode, *slog.Entry, bool) {
+			// which logger the package-level functions use says nothing about the tree: Parent/Root/Each stay what the
+			// creation history made them
+			slog.SetDefault(t.e)
+			return nil, t.e, false
+		}},
 		{"WithErrorWriter", func(e *c10env, t *mnode) (*mnode, *slog.Entry, bool) {
 			w, id := pickW()
 			ent := t.e.WithErrorWriter(w)
@@ -654,6 +679,10 @@ func c10tree(c *Ctx) {
 			c.R.JournalNote(history[len(history)-1])
 			created, ret, mutates := op.apply(e, t)
 			c.R.Add("operations", 1)
+			if strings.HasPrefix(e.skipClash, "WithWriter(nil)") {
+				fail("with-creates-child-of-receiver", e.skipClash)
+				return
+			}
 			if e.skipClash != "" {
 				fail("withskip-one-child-per-n", e.skipClash)
 				return
